@@ -1,13 +1,13 @@
 #!/bin/bash
-# tools/seed_confirm.sh : the prescribed confirmation - apply each seeded patch to /repo, run the check(s) that are
-# recorded as catching it, undo the patch straight afterwards.  Writes seeded/CONFIRM.txt.
+# tools/seed_confirm.sh : the prescribed confirmation - apply each seeded patch to /repo, run the first check that is
+# recorded as catching it (the property's own check where none is: those lines are expected to read exit=0), undo the patch straight afterwards.  Writes seeded/CONFIRM.txt.
 cd "$(dirname "$0")/.."
 out=seeded/CONFIRM.txt
 : > $out
 [ -n "$(git -C /repo status --porcelain --untracked-files=no)" ] && { echo "/repo not clean"; exit 2; }
 for d in seeded/C*/; do
   k=$(basename $d)
-  checks=$(/venv/bin/python -c "import json;m=json.load(open('$d/meta.json'));print(' '.join(m['caught_by']) or m['property'])")
+  checks=$(/venv/bin/python -c "import json;m=json.load(open('$d/meta.json'));print((m['caught_by'] or [m['property']])[0])")
   p=$d/patch.diff; [ -f $d/patch_ported.diff ] && p=$d/patch_ported.diff; git -C /repo apply $p || { echo "$k patch does not apply" | tee -a $out; continue; }
   for c in $checks; do
     ./check $c --tier quick > /tmp/confirm.$$ 2>&1; rc=$?
